@@ -1,8 +1,10 @@
 """What each property's check runs.  traces: (scenario, (quick scale, thorough scale));
 None = not in that tier.  mc: MC_* configurations.  gen: spec -> impl generators."""
 
-CODECS = ["dna", "iupac", "amino", "text", "mdna", "miupac", "degen"]
-ORD = ["dna", "text", "mdna", "miupac", "degen"]
+# "x3" / "x7": codecs derived in the harness (widths 3 and 7), specified in spec/Codecs.tla
+CODECS = ["dna", "iupac", "amino", "text", "mdna", "miupac", "degen", "x3", "x7"]
+BUILTIN = ["dna", "iupac", "amino", "text", "mdna", "miupac", "degen"]
+ORD = ["dna", "text", "mdna", "miupac", "degen", "x3", "x7"]
 
 PLAN = {
     "C01": dict(
@@ -38,7 +40,8 @@ PLAN = {
              "sequences produced by parse / collect / offset copy / rev / comp / bitwise / edits, every count",
     ),
     "C05": dict(
-        traces=[("c05", (1, 1))], seeded={"c05": False},
+        traces=[("c05", (1, 1)), ("c05multi", (1, 1))], seeded={"c05": False, "c05multi": False},
+        codecs={"c05": BUILTIN, "c05multi": BUILTIN},
         mc=dict(quick=["MC_C05"]),
         exhaustive=True,
         rule="one cell event per (codec, byte) for all 7 x 256 cells in canonical order (a skipped cell is a "
@@ -125,7 +128,7 @@ PLAN = {
     "C15": dict(
         gen=dict(quick=[("Gen_C15", "Gen_C15.cfg")]),
         traces=[("c15", (24, 200))],
-        codecs={"c15": ["dna", "iupac"]},
+        codecs={"c15": CODECS},
         seeds=dict(quick=1, thorough=8),
         mc=dict(quick=["MC_C15"]),
         rule="tablenew / tableamino / tablecodon events: random maps over codons of length 1..4 with 0/1/2/3+ "
